@@ -4,6 +4,7 @@
   AssertionError / Exception of the Python) is possible, and the output is again a well-formed query.
 -/
 import Fadl.Model.WfQuery
+import Fadl.Lemmas.DictLookup
 import Fadl.Props.C18
 import Fadl.Lemmas.SimpSem
 import Fadl.Props.C02
@@ -246,17 +247,7 @@ theorem wfq_getElem {es : List Expr} (h : wfqL es = true) {n : Nat} {el : Expr} 
   wfqL_mem h (List.mem_of_getElem? he)
 
 theorem wfq_dictLookup {ks vs : List Expr} {k : Const} {r : Expr} (hv : wfqL vs = true)
-    (h : dictLookup ks vs k = some r) : wfq r = true := by
-  unfold dictLookup at h
-  split at h
-  · obtain ⟨p, hp, hr⟩ := List.exists_of_findSome?_eq_some h
-    have : p.2 ∈ vs := (List.of_mem_zip (show (p.1, p.2) ∈ ks.zip vs from hp)).2
-    split at hr
-    · split at hr
-      · cases hr; exact wfqL_mem hv this
-      · cases hr
-    · cases hr
-  · cases h
+    (h : dictLookup ks vs k = some r) : wfq r = true := wfqL_mem hv (dictLookup_mem h)
 
 theorem wfStack_nil : wfStack [[]] := by
   intro x v h
